@@ -98,7 +98,15 @@ def impl(case):
             if case.get("bools"):
                 h = [bool(x) if type(x) is int and x in (0, 1) else x for x in h]
             m = Message(node_id=h[0], child_id=h[1], type=h[2], ack=h[3], sub_type=h[4], payload=case["payload"])
-            return ["ok", m.encode()]
+            out = ["ok", m.encode()]
+            p = case["payload"]
+            if "/" not in p and _py_wire_ok(p):
+                # the same codec with the caller's delimiter (the MQTT gateway encodes with "/")
+                alt = m.encode("/")
+                m2 = Message()
+                m2.decode(alt, "/") if alt is not None else None
+                out.append([alt, [m2.node_id, m2.child_id, m2.type, m2.ack, m2.sub_type, m2.payload]])
+            return out
         if kind == "copy":
             gw = object()
             m = Message(node_id=hdr[0], child_id=hdr[1], type=hdr[2], ack=hdr[3], sub_type=hdr[4],
@@ -186,6 +194,13 @@ def monitor(case, obs):
         p = case["payload"]
         if obs[0] != "ok" or obs[1] is None:
             return f"encode of integer header failed: {obs}"
+        if len(obs) > 2:
+            alt, back = obs[2]
+            want = "/".join(str(int(x)) for x in case["hdr"]) + "/" + p + "\n"
+            if alt != want:
+                return f"encode with delimiter '/' gives {alt!r}, expected {want!r}"
+            if back != case["hdr"] + [p]:
+                return f"decode(encode(m, '/'), '/') = {back} != {case['hdr'] + [p]}"
         if _py_wire_ok(p):
             try:
                 m = Message(obs[1])
@@ -236,7 +251,7 @@ def run(ctx, res):
             res.violate("codec:" + c["kind"], why, c, kind="monitor")
         if mo is not None:
             m = model_obs(c, mo)
-            if m != o:
+            if m != o[:2] if c["kind"] == "encode" else m != o:
                 res.violate("corr:" + c["kind"], f"model {m!r} != implementation {o!r}", c, kind="correspondence",
                             found_input=False)
             if len(xin) < ctx.budget(150, 600):
